@@ -204,6 +204,12 @@ def pr(e, parent=0, right=False):
     return "(" + s + ")" if (p < parent or (p == parent and right)) else s
 
 
+EXOTIC_STRINGS = [
+    ('"one \\\ntwo"', "one two"), ("'a\\\nb'", "ab"), ('"a\\/b"', "a/b"), ('"\\q"', "q"), ('"\\-"', "-"), ('"\\a"', "a"), ('"x\\1y"', "x\x01y"),
+    ('"\\7"', "\x07"), ('"\\12"', "\n"), ('"\\101"', "A"), ('"\\u{41}"', "A"), ('"\\u{000041}"', "A"), ('"\\x41\\x42"', "AB"),
+    ('"\\u00e9"', "\u00e9"), ('"\\u{1F600}"', "\U0001F600"), ('"\\uD83D\\uDE00"', "\U0001F600"), ("'\\''", "'"), ('"\\""', '"'),
+    ('"\\v\\f\\b"'.replace("\\v\\f\\b", "tab\\there"), "tab\there"), ('"\\r\\n"', "\r\n"), ('"a\\\r\nb"', "ab"), ('"\\8"', "8"),
+]
 TARGETS = {"int": "ival", "double": "dval", "bool": "bval", "str": "sval"}
 
 
@@ -268,6 +274,12 @@ def run(tier, seed, replay=None):
                        + " VfWidget {\n  id: %s\n  %s: %s\n }\n}\n" % (oid, c[1], binding_src(c, qml, oid)))
                 jobs.append({"id": "j%d" % len(jobs), "source": src, "modes": ["generate"], "want": ["ui"]})
                 index.append((di, c))
+    # string literal spellings with a defined ECMAScript meaning that the translator may or may not support: if one is
+    # embedded, it must be embedded with that meaning
+    for lit, denotes in EXOTIC_STRINGS:
+        src = "import qmluic.QtWidgets\nQWidget {\n VfWidget {\n  id: o0\n  sval: %s\n }\n}\n" % lit
+        jobs.append({"id": "j%d" % len(jobs), "source": src, "modes": ["generate"], "want": ["ui"]})
+        index.append((-1, ("o0", "sval", "str", ("lit", "str", denotes, lit), lit)))
     if replay:
         rp = json.load(open(replay))
         keep = [i for i, j in enumerate(jobs) if j["source"] == rp.get("qml")]
@@ -311,7 +323,7 @@ def run(tier, seed, replay=None):
         got = uiparse.decode_value(p.children[0])
         stats["embedded"] += 1
         by_kind[kind] = by_kind.get(kind, 0) + 1
-        rp = {"qml": qml, "binding": "%s: %s" % (prop, binding_src(c, docs[di][0], oid)), "observed": str(got)}
+        rp = {"qml": qml, "binding": "%s: %s" % (prop, binding_src(c, docs[di][0], oid) if di >= 0 else src), "observed": str(got)}
         if undefined and "not judged" not in undefined:
             stats["undefined"] += 1
             v.violation("undefined-embedded:" + undefined.split(" ")[0], "expression with undefined value (%s) embedded as %r: %s" % (undefined, got, src[:200]), rp)
